@@ -76,6 +76,13 @@ package mqttproxy
 //   * a new connection that is closed by a session-delete event meant for its
 //     predecessor (known finding C16.reconnect.killed-by-own-delete-event) is
 //     accepted here: it is closed, not served beyond the cap;
+//   * every connection whose CONNECT goes out at once must be answered (CONNACK
+//     accepted or server-unavailable; C17.mqtt-connect-unanswered). A socket
+//     that the broker closes without CONNACK is accepted only if the scheduler
+//     stalled during its handshake, i.e. its CONNECT reached the broker an
+//     arbitrary time after the socket was opened: a broker may give up on a peer
+//     that does not send CONNECT in reasonable time, such a socket is not a
+//     connected client (probe mqtt.silent_socket_dropped_before_connack);
 //   * a takeover of a connected id while the broker is at its cap may be
 //     accepted or refused (counted by probes mqtt.takeover_at_cap_*);
 //   * ids used with CleanSession=true (ids of their own in most runs, pool ids
@@ -1426,6 +1433,11 @@ func c17Drain(conn net.Conn) {
 // client-side rules. It returns nil when the connection is not established.
 func (m *c17M) connect(n *simnet.Net, op c17MOp, who string) *c17MC {
 	r := m.r
+	// virtual time the scheduler has spent in stall decisions so far: if it
+	// grows during the handshake, this connection's CONNECT reached the broker
+	// an arbitrary time after the socket was opened (the client task or the
+	// delivery of its bytes was held back), through no doing of the scenario
+	stalled0 := r.StalledFor()
 	conn, err := c17Dial(r, n, "mdial-"+who, "c17:1883")
 	if err != nil {
 		r.Violate("C17.other", "%s: dial failed: %v", who, err)
@@ -1462,6 +1474,11 @@ func (m *c17M) connect(n *simnet.Net, op c17MOp, who string) *c17MC {
 		c.gone = true
 		c.reapedSeq = m.next()
 		c.state = "failed"
+		if r.StalledFor() != stalled0 {
+			c.state = "dropped"
+			m.note("dropped s%d %s before CONNECT", c.sid, c.id)
+			r.Probe("mqtt.silent_socket_dropped_before_connack")
+		}
 		conn.Close()
 		return nil
 	}
@@ -1481,9 +1498,19 @@ func (m *c17M) connect(n *simnet.Net, op c17MOp, who string) *c17MC {
 		c.state, c.gone = "failed", true
 		c.reapedSeq = m.next()
 		conn.Close()
-		if !r.Violated() && !r.Aborted() {
-			r.Violate("C17.other", "%s: connection s%d (%s) got no CONNACK: %v\nhistory: %s", who, c.sid, c.id, err, m.history())
+		if r.Violated() || r.Aborted() {
+			return nil
 		}
+		if ne, ok := err.(net.Error); (!ok || !ne.Timeout()) && r.StalledFor() != stalled0 {
+			// the broker closed a socket whose CONNECT was late: the statement is
+			// about connected clients, and this one never became one (no CONNACK,
+			// closed: it is never counted as connected by any rule here)
+			c.state = "dropped"
+			m.note("dropped s%d %s without CONNACK", c.sid, c.id)
+			r.Probe("mqtt.silent_socket_dropped_before_connack")
+			return nil
+		}
+		r.Violate("C17.mqtt-connect-unanswered", "%s: connection s%d (%s) sent its CONNECT without delay (no scheduler stall between opening the socket and now) and got neither CONNACK accepted nor server-unavailable: %v\nhistory: %s", who, c.sid, c.id, err, m.history())
 		return nil
 	}
 	ack, ok := pk.(*packets.ConnackPacket)
@@ -1821,14 +1848,21 @@ func c17ExecMQTT(r *sim.Run, sc *c17Scenario) {
 		var fresh []*c17MC
 		for i := 0; i <= m.cap; i++ {
 			op := c17MOp{ID: fmt.Sprintf("z%d", i)}
-			before := len(m.conns)
-			c := m.connect(n, op, fmt.Sprintf("final%d", i))
+			var c *c17MC
+			st := ""
+			for try := 0; try < 8; try++ {
+				before := len(m.conns)
+				c = m.connect(n, op, fmt.Sprintf("final%d.%d", i, try))
+				st = ""
+				if len(m.conns) > before {
+					st = m.conns[before].state
+				}
+				if st != "dropped" || r.Violated() || r.Aborted() {
+					break
+				}
+			}
 			if r.Violated() || r.Aborted() {
 				break
-			}
-			st := ""
-			if len(m.conns) > before {
-				st = m.conns[before].state
 			}
 			if i < m.cap && st != "accepted" {
 				r.Violate("C17.mqtt-capacity-not-released", "after every client had gone, fresh client %d of %d was not admitted (%s)\nhistory: %s", i+1, m.cap, st, m.history())
@@ -1926,6 +1960,7 @@ func TestVerifC17(t *testing.T) {
 			"a connection counts as open-and-served at an instant only if, after that instant, it got answers to two successive PINGREQs (a connection just dropped by the broker may still get its one outstanding packet answered); connections of one client id count once",
 			"nothing is asserted about how soon a session delete frees its slot; a reconnect killed by a delete event meant for its predecessor is accepted (C16 known finding)",
 			"a client leaving before its CONNACK resets the connection (RST); plain close before CONNACK is not generated (simnet fails the peer's next write immediately, TCP does not)",
+			"a socket closed by the broker without CONNACK is accepted if (and only if) a scheduler stall fell into its handshake (late CONNECT); it never counts as connected",
 			"maxAllowedConnection=0 (unlimited), the MQTT connection rate limiter, keep-alive expiry and session-watch interruptions are not generated",
 		},
 	})
